@@ -82,7 +82,7 @@ def check_lib(ctx, gen_or_libs, target, drv):
                 raise HarnessError("model driver rejected the description: %s" % json.dumps(ans)[:300])
             if ans["text"] != text:
                 raise HarnessError("the two renderers of the description disagree")
-            models[st] = norm(ans)
+            models[st] = norm(ans, "C08")
         obs = a05.py_flatten(text, target)
         obss[st] = obs
         ctx.count("spelling-%s-%s" % (st, "ok" if obs["ok"] else "rejected"))
@@ -92,7 +92,7 @@ def check_lib(ctx, gen_or_libs, target, drv):
             ctx.violation(r[0], rep, expected=r[1], observed=r[2], kind="input")
         # correspondence with the reference
         if drv is not None:
-            o = norm(obs)
+            o = norm(obs, "C08")
             if models[st] != o:
                 if models[st]["ok"] and not o["ok"] and "REJ" in a05.triggers(lib, target):
                     ctx.count("allowed-rejection")
@@ -107,7 +107,7 @@ def check_lib(ctx, gen_or_libs, target, drv):
                 ctx.disagreement("spelling_invariant", dict(lib=libs[st], target=target, spelling=st,
                                                             text=a05.render(libs[st])), models[st], models["S"])
     # (ii) metamorphic oracle on the real code: accepted spellings agree
-    acc = [(st, norm(o)) for st, o in obss.items() if o["ok"]]
+    acc = [(st, norm(o, "C08")) for st, o in obss.items() if o["ok"]]
     for st, o in acc[1:]:
         if o != acc[0][1]:
             ctx.violation("two spellings of the same modifications flatten to different models (%s vs %s)" % (acc[0][0], st),
